@@ -235,7 +235,7 @@ def consume_step_diff(r, exp):
     return None
 
 
-def _judge(ctx, part, paths, rep, blocks, outs, step_diff, describe, keyf, callf):
+def _judge(ctx, part, paths, rep, blocks, outs, step_diff, describe, keyf, callf, label="recorded random sequence"):
     """Verdicts come from TLC (the trace monitor) for every recorded sequence.  For replayed paths Python compares
     each step with what TLC printed for that edge / walk step as well: both must name the same first deviating step,
     otherwise the run is inconclusive (oracle disagreement), never a verdict."""
@@ -281,6 +281,9 @@ def _judge(ctx, part, paths, rep, blocks, outs, step_diff, describe, keyf, callf
             rec = blk[v["n"]] if 0 < v["n"] < len(blk) else {}
             what = v["what"]
             obs = rec.get("ret") or rec.get("res") or {}
+            if str(obs.get("err", "")).startswith("env-") or str(obs.get("ret", "")).startswith("env-") or any(
+                    str(c.get("err", "")).startswith("env-") for c in obs.get("calls", []) if isinstance(c, dict)):
+                raise vf.Inconclusive("%s sequence %d: the environment failed (%s), not the code under test" % (part, id_, obs))
             if obs.get("err") == "panic" or obs.get("ret") == "panic":
                 what = "panic"
             if (id_, what) in seen:
@@ -290,14 +293,14 @@ def _judge(ctx, part, paths, rep, blocks, outs, step_diff, describe, keyf, callf
             p, dtext, exp = details.get(id_, (None, None, None))
             ctx.violation(keyf(v, what),
                           "%s as call %d of %s %d on a %s: %s%s%s; calls so far: %s" % (
-                              callf(rec.get("call", v)), v["n"], (p["_src"] + " path") if p else "recorded random sequence", id_,
+                              callf(rec.get("call", v)), v["n"], (p["_src"] + " path") if p else label, id_,
                               describe(p, blk) if blk else "?", v["what"],
                               (" - panicked: %s" % rec.get("note")) if what == "panic" else "",
                               (" - " + dtext) if dtext and what != "panic" else "", calls),
-                          dict(part=part, path={k: x for k, x in p.items() if not k.startswith("_")} if p else None, step=v["n"],
+                          dict(part=part, begin=blk[0] if blk else None, calls=[r["call"] for r in blk[1:v["n"] + 1]], step=v["n"],
                                expected=exp, observed=rec, verdict=v, trace=blk[:v["n"] + 1][-40:]))
     judged = len(blocks) - len(skips | set(bad))
-    if judged == 0:
+    if judged == 0 and not bad:
         raise vf.Inconclusive("no recorded %s sequence was judged to its end" % part)
     return dict(bad=bad, judged=judged, skipped=len(skips), states=states)
 
@@ -369,7 +372,7 @@ def _consume(ctx, pool, binary_f):
 
 LIFE_INVS = "TypeOK FreshAndOwn NewIsDefaults OnePerAttempt NothingSent SettersReachWire"
 LIFE_WRONG = ["no-reset", "partial-reset", "withctx-aliases"]
-ALL_STMTS = '{"q0", "p0", "p2"}'
+ALL_STMTS = '{"q0", "p0", "p2", "b2"}'
 EDGE_COPYSET = '{"cons", "tsval", "pstate", "bind", "idemF", "obs"}'   # what the edge-dump instances call on a WithContext copy
 WIRE_FIELDS = ["op", "stmt", "vals", "cons", "skip", "psize", "pstate", "serial", "ts", "tracing", "payload", "btype", "n", "kinds", "counts"]
 OBS_FIELDS = ["who", "stmts", "vals", "rows", "err", "att", "host"]
@@ -393,7 +396,7 @@ def _life_cfg(ctx, name, spec, profiles, stmts, sets, lives, execs, batch, poolv
 def _life_model(ctx, quick):
     """Exhaustive pass with the pool design, the batch instance, the wrong pool designs."""
     res = dict(configs=[], refuted={})
-    insts = [("pool", '{"P1", "P2"}', ALL_STMTS, 1, 2, 1, False, "ok", LIFE_INVS, "AttemptsCount"),
+    insts = [("pool", '{"P1", "P2"}', '{"p2", "b2"}' if quick else ALL_STMTS, 1, 2, 1, False, "ok", LIFE_INVS, "AttemptsCount"),
              ("batch", '{"P1", "P2"}', "{}", 2, 0, 2, True, "none", "TypeOK OnePerAttempt NothingSent", "")]
     if not quick:
         insts.append(("pool3", '{"P2"}', '{"p2"}', 1, 3, 1, False, "ok", LIFE_INVS, "AttemptsCount"))
@@ -489,6 +492,8 @@ def life_res_diff(a, e):
         d = _first(OBS_FIELDS, x, y)
         if d:
             return "observer:" + d
+    if e["first"] >= 0 and a["first"] != e["first"]:
+        return "observer:first-attempt-index"
     if a["tracer"] != e["tracer"] or a["traced"] != e["traced"]:
         return "tracer"
     if e["att"] >= 0 and a["att"] != e["att"]:
@@ -599,11 +604,57 @@ def _life(ctx, pool, binary_f):
                 tlc_states=st + mres["distinct"], tlc_transitions=tr + mres["generated"])
 
 
+def _replay(ctx, pool, binary_f):
+    """--replay: the call sequences stored in a replay file are executed again on the current code and judged by TLC."""
+    rp = json.load(open(ctx.replay))
+    seqs = dict(consume=[], life=[])
+    for v in rp.get("violations", []):
+        d = v.get("detail") or {}
+        if d.get("begin") and d.get("calls"):
+            b = d["begin"]
+            n = len(seqs[d["part"]]) + 1
+            if d["part"] == "consume":
+                seqs["consume"].append(dict(id=n, scn=b["scn"], calls=d["calls"], kind=b.get("kind", "query"), skip=b.get("skip", 0)))
+            else:
+                seqs["life"].append(dict(id=n, prof=b["prof"], calls=d["calls"]))
+    if not seqs["consume"] and not seqs["life"]:
+        raise vf.Inconclusive("the replay file holds no call sequence")
+    binary = binary_f.result()
+    total = 0
+    for part, test, out, mod, descr, keyf, callf in (
+            ("consume", "^TestVfX02ConsumeReplay$", "x02_consume_replay.ndjson", "Trace_Consume",
+             lambda p, blk: "%s/%s result %s" % (blk[0]["scn"]["via"], blk[0]["scn"]["shape"], blk[0]["scn"]),
+             lambda v, what: "consume/%s[%s]/%s/%s-%s" % (v["op"], v["v"], what, v["via"], v["shape"]),
+             lambda c: "%s(%s)" % (c["op"], c["v"])),
+            ("life", "^TestVfX02LifeReplay$", "x02_life_replay.ndjson", "Trace_QueryLife",
+             lambda p, blk: "session with profile %s" % blk[0].get("prof"),
+             lambda v, what: "life/%s[%s]/%s" % (v["op"], v["a"], what), lambda c: "%s(%s,%s)" % (c["op"], c["h"], c["a"]))):
+        if not seqs[part]:
+            continue
+        pp = os.path.join(ctx.tmp, "x02_replay_%s.ndjson" % part)
+        vf.write_ndjson(pp, seqs[part])
+        rc, o = vf.run_gotest(ctx, binary, test, {"VF_X02_PATHS": pp, "VF_X02_PAR": 1}, 1500)
+        if "--- FAIL" in o:
+            raise vf.Inconclusive("replay driver failed:\n%s" % o[-2000:])
+        recs = vf.read_ndjson(os.path.join(ctx.tmp, out))
+        shards, blocks = _shard(ctx, recs, 1, "replay_" + part)
+        outs = [_monitor(ctx, mod, mod + ".cfg", shards[0], "replay_" + part)]
+        j = _judge(ctx, part, [], recs, blocks, outs, None, descr, keyf, callf, label="replayed sequence")
+        total += len(blocks)
+        ctx.log("replayed %d %s sequences on the current code: %d with a violation" % (len(blocks), part, len(j["bad"])))
+    ctx.cov = dict(states=0, transitions=0, traces_validated_against_impl=total,
+                   samples=[dict(kind="replayed sequence", sequence=(seqs["consume"] or seqs["life"])[0])])
+
+
 def run(ctx):
     ctx.level = "model_checking"
     pool = cf.ThreadPoolExecutor(max_workers=10)
     vf._scratch_spec_dir(ctx, "w")
     binary_f = pool.submit(vf.build_gotest, ctx, ".", ["common", "x02"])
+    if getattr(ctx, "replay", None):
+        _replay(ctx, pool, binary_f)
+        pool.shutdown()
+        return
     parts = os.environ.get("VF_X02_PARTS", "consume,life").split(",")
     f_cons = pool.submit(_consume, ctx, pool, binary_f) if "consume" in parts else None
     f_life = pool.submit(_life, ctx, pool, binary_f) if "life" in parts else None
